@@ -31,7 +31,7 @@ var decodeKinds = map[string]string{
 }
 
 func runC01(c *Check) {
-	c.Explanation = "Decides the table-agreement part of C01 for every profile: for each of the eight wire messages the writer's encode method and the reader's decoder table agree tag by tag on kind and on the struct field they carry (no field written but not read, read but not written, read into the neighbouring field, or asserted as the wrong message type) (R1); every string-index and id scratch field that encode writes is filled by preEncode from the exported attribute that postDecode resolves it back into (intern/resolve symmetry) (R2); every exported attribute of the eight message structs is carried by one of those paths (R3); the scratch fields are produced only inside serialize (R4); the varint and tag constants of encoder and decoder describe the same radix and the same tag/wire-type split (R5). Also: unit lists are padded before NumUnit is published (R6); every scalar scratch field assigned in a loop of preEncode is assigned on every path through the iteration, so no value of an earlier serialization survives (R7); a conditional sub-message is written whenever any field its own encode method writes is set (R8); preEncode and marshal run in one critical section of serialize (R4). Also: nothing is interned after the string table was built (R10); a sub-message is framed with tag and length on every path after its encode call (R11); no map-order effect in the serializer's call tree (R12). Not decided: the varint/packed arithmetic itself, packed thresholds, id-table resolution for sparse ids, byte-identical re-serialization, gzip."
+	c.Explanation = "Decides the table-agreement part of C01 for every profile: for each of the eight wire messages the writer's encode method and the reader's decoder table agree tag by tag on kind and on the struct field they carry (no field written but not read, read but not written, read into the neighbouring field, or asserted as the wrong message type) (R1); every string-index and id scratch field that encode writes is filled by preEncode from the exported attribute that postDecode resolves it back into (intern/resolve symmetry) (R2); every exported attribute of the eight message structs is carried by one of those paths (R3); the scratch fields are produced only inside serialize (R4); the varint and tag constants of encoder and decoder describe the same radix and the same tag/wire-type split (R5). Also: unit lists are padded before NumUnit is published (R6); every scalar scratch field assigned in a loop of preEncode is assigned on every path through the iteration, so no value of an earlier serialization survives (R7); a conditional sub-message is written whenever any field its own encode method writes is set (R8); preEncode and marshal run in one critical section of serialize (R4). Also: nothing is interned after the string table was built (R10); a sub-message is framed with tag and length on every path after its encode call (R11); no map-order effect in the serializer's call tree (R12). Round-I additions: the decoder's table lookup skips a field number equal to the table length; nothing on the parse path reads through a bounded reader (io.LimitReader/CopyN). Not decided: the varint/packed arithmetic itself, packed thresholds, id-table resolution for sparse ids, byte-identical re-serialization, gzip."
 	p := c.P
 	sp := p.SSAPkg("profile")
 	if sp == nil {
